@@ -416,6 +416,30 @@ def correspond(ctx):
                 for c in [None, 1, -1, 2, -2, 3, -3]:
                     sl_lines.append('slice %d %s %s %s' % (n, *('_' if v is None else str(v) for v in (a, b, c))))
                     sl_obs.append(','.join(map(str, range(*slice(a, b, c).indices(n)))) or '-')
+    # elementwise functions with a domain (log: positive entries, sqrt: nonnegative entries of real matrices): ValueError exactly when an entry - anywhere
+    # in the matrix - lies outside, otherwise the entrywise values as a 'd' matrix of the same size
+    import math as _m
+    rng2 = random.Random(ctx.seed * 50021 + 157)
+    nfun = 0
+    for _ in range(60 if ctx.quick() else 3000):
+        tc = rng2.choice('id'); mm, nn = rng2.randint(1, 4), rng2.randint(1, 4)
+        vals = [rng2.randint(1, 9) if tc == 'i' else rng2.randint(1, 18) / 2.0 for _ in range(mm * nn)]
+        bad = rng2.random() < 0.6
+        pos = rng2.randrange(mm * nn)
+        fname = rng2.choice(['log', 'sqrt'])
+        if bad: vals[pos] = (rng2.choice([0, -1, -3]) if fname == 'log' else rng2.choice([-1, -3])) * (1 if tc == 'i' else 1.0)
+        A = cvxopt.matrix(vals, (mm, nn), tc); nfun += 1
+        case = {'function': fname, 'typecode': tc, 'size': [mm, nn], 'values': vals}
+        try: R = getattr(cvxopt, fname)(A); got = 'matrix'
+        except ValueError: R = None; got = 'ValueError'
+        except Exception as e: R = None; got = type(e).__name__
+        if bad and got != 'ValueError':
+            ctx.violation('c15:elementwise-domain:' + fname, '%s of a %dx%d %r matrix with the entry %r at position %d gives %s instead of ValueError' % (fname, mm, nn, tc, vals[pos], pos, got), case)
+        elif not bad:
+            ref = [(_m.log(v) if fname == 'log' else _m.sqrt(v)) for v in vals]
+            if got != 'matrix' or R.typecode != 'd' or R.size != (mm, nn) or any(abs(a - b) > 1e-13 * (1 + abs(b)) for a, b in zip(R, ref)):
+                ctx.violation('c15:elementwise-value:' + fname, '%s of a positive %dx%d %r matrix gives %s' % (fname, mm, nn, tc, got if R is None else list(R)), case)
+    ctx.cov['elementwise_domain_cases'] = nfun
     out = vlib.drive('C15', lines + sl_lines)
     dis = 0
     ops = 0
